@@ -6,7 +6,7 @@ import warnings
 import numpy as np
 import pandas as pd
 
-from simkit.kernel import (Crash, EventLog, INTERRUPTS, Violation, dims_sig, dim_sig, exc_class, same_as_snap,
+from simkit.kernel import (Crash, EventLog, INTERRUPTS, Violation, detach_exc, dims_sig, dim_sig, exc_class, same_as_snap,
                            shape_invariant_ok, snap_array, values_equal, vdig)
 from simkit.engine import jhash
 from engines.arrayworld import (build_key, int_values, make_dim, marginal_by_label, region_indices, region_letters,
@@ -120,6 +120,7 @@ def call(st, op, thunk, info):
             except Exception as e:  # noqa
                 info.outcome = "raise"
                 info.exc = e
+                detach_exc(e)
                 r = None
             st.line_counts[op.get("_n", -1)] = c.count
             return r
@@ -132,6 +133,7 @@ def call(st, op, thunk, info):
         except Exception as e:  # noqa
             info.outcome = "raise"
             info.exc = e
+            detach_exc(e)
             return None
 
 
